@@ -32,6 +32,35 @@ Definition find_blocks (ends positions : list Z) : res (list nat) :=
   let idx := map (first_ge ends) positions in
   if existsb (fun i => Nat.leb (length ends) i) idx then Err E_Value else Ok idx.
 
+(* np.searchsorted(arr, k, side='left') exactly as numpy 2.x computes it, for ANY array
+   (sorted or not): a stateless, branch-free lower-bound bisection
+       base = 0; len = n
+       while len > 1: half = len >> 1; if arr[base+half] < k: base += half; len -= half
+       return base + (arr[base] < k)                      (0 for an empty array)
+   (validated against np.searchsorted on unsorted uint32/int64/float64 arrays, contiguous
+   and strided; relation find compares it on every run).  On an ascending array it is
+   [first_ge] (theorem np_search_first_ge in C05_ProofsNp). *)
+Fixpoint bl_loop (fuel : nat) (arr : list Z) (k : Z) (base len : nat) : nat :=
+  match fuel with
+  | O => base
+  | S f =>
+      if Nat.leb len 1 then base else
+      let half := Nat.div2 len in
+      bl_loop f arr k (if nth (base + half) arr 0 <? k then (base + half)%nat else base) (len - half)
+  end.
+
+Definition np_search (arr : list Z) (k : Z) : nat :=
+  match arr with
+  | [] => O
+  | _ => let b := bl_loop (length arr) arr k O (length arr) in
+         if nth b arr 0 <? k then S b else b
+  end.
+
+(* _find_blocks with numpy's bisection: the faithful model on every input *)
+Definition find_blocks_np (ends positions : list Z) : res (list nat) :=
+  let idx := map (np_search ends) positions in
+  if existsb (fun i => Nat.leb (length ends) i) idx then Err E_Value else Ok idx.
+
 (* ---- population_array ----------------------------------------------------- *)
 
 Record variant := mkvar { vchrom : Z; vpos : Z }.
@@ -114,6 +143,39 @@ Definition population_array (d : table) (vs : list variant) (req : option (list 
   : res (list (list (Z * Z))) :=
   bind (select d req) (mapM (sample_rows vs)).
 
+(* the same loop nest with numpy's bisection in place of the linear scan: what the code
+   computes on every table, also one whose block ends are not ascending *)
+Definition fill_chrom_np (blocks : list seg) (vs : list variant) (c : Z) (row : list (option Z))
+  : res (list (option Z)) :=
+  let cb := on_chrom c blocks in
+  match cb with
+  | [] => Err E_Value
+  | _ :: _ =>
+    let mask := map (fun v => vchrom v =? c) vs in
+    let positions := map vpos (filter (fun v => vchrom v =? c) vs) in
+    bind (find_blocks_np (map endc cb) positions) (fun idx =>
+      Ok (scatter mask (map (fun i => nth i (map pop cb) 0) idx) row))
+  end.
+
+Fixpoint fold_chroms_np (blocks : list seg) (vs : list variant) (cs : list Z) (row : list (option Z))
+  : res (list (option Z)) :=
+  match cs with
+  | [] => Ok row
+  | c :: r => bind (fill_chrom_np blocks vs c row) (fold_chroms_np blocks vs r)
+  end.
+
+Definition strand_row_np (blocks : list seg) (vs : list variant) : res (list Z) :=
+  bind (fold_chroms_np blocks vs (dedup (map vchrom vs)) (repeat None (length vs)))
+       (fun row => Ok (map cell_get row)).
+
+Definition sample_rows_np (vs : list variant) (sb : Z * strands) : res (list (Z * Z)) :=
+  bind (strand_row_np (fst (snd sb)) vs) (fun r1 =>
+  bind (strand_row_np (snd (snd sb)) vs) (fun r2 => Ok (combine r1 r2))).
+
+Definition population_array_np (d : table) (vs : list variant) (req : option (list Z))
+  : res (list (list (Z * Z))) :=
+  bind (select d req) (mapM (sample_rows_np vs)).
+
 (* ---- encode / recode ------------------------------------------------------ *)
 
 Record bpstate := mkbp { bdata : table; blabels : option (list (Z * Z)) }.
@@ -156,14 +218,40 @@ Fixpoint enum_dict (i : Z) (l : list Z) (d : list (Z * Z)) : list (Z * Z) :=
   | x :: r => enum_dict (i + 1) r (dict_set Z.eqb x i d)
   end.
 
+(* every code of an encoded strand / table fits np.uint8 *)
+Definition fits8 (l : list seg) : bool := forallb (fun s => pop s <=? 255) l.
+Definition codes_fit (d : table) : bool :=
+  forallb (fun nsb : Z * strands => fits8 (fst (snd nsb)) && fits8 (snd (snd nsb))) d.
+
 Definition encode (given : option (list Z)) (st : bpstate) : res bpstate :=
   match blabels st with
   | Some _ => Err E_Value                   (* "The data has already been encoded." *)
   | None =>
     let l0 := match given with None => [] | Some g => enum_dict 0 g [] end in
     let '(d', (labels, seen)) := enc_table (l0, []) (bdata st) in
-    Ok (mkbp d' (Some (filter (fun kv => existsb (Z.eqb (fst kv)) seen) labels)))
+    (* ints = np.zeros(.., dtype=[("pop", np.uint8)]); ints[i] = labels[pop]: numpy 2 raises
+       OverflowError for a Python int > 255 ("out of bounds for uint8"), it does not wrap *)
+    if codes_fit d' then
+      Ok (mkbp d' (Some (filter (fun kv => existsb (Z.eqb (fst kv)) seen) labels)))
+    else Err E_Overflow
   end.
+
+(* self.data after an encode that raised OverflowError: the strands before the one holding
+   the first code > 255 have been replaced by their encoded arrays, that strand and the
+   later ones are untouched; self.labels is still None *)
+Fixpoint enc_partial (st : lstate) (d : table) : table :=
+  match d with
+  | [] => []
+  | (name, (b1, b2)) :: r =>
+      let '(b1', st1) := enc_blocks st b1 in
+      if negb (fits8 b1') then d else
+      let '(b2', st2) := enc_blocks st1 b2 in
+      if negb (fits8 b2') then (name, (b1', b2)) :: r else
+      (name, (b1', b2')) :: enc_partial st2 r
+  end.
+
+Definition encode_partial (given : option (list Z)) (d : table) : table :=
+  enc_partial (match given with None => [] | Some g => enum_dict 0 g [] end, []) d.
 
 (* {v: k for k, v in labels.items()}.get : the last entry with that code wins;
    a code without a label gives Python's None, which astype(str) renders 'None'
@@ -207,6 +295,10 @@ Record ist := mkist {
 }.
 
 Section Text.
+(* [strict] = the reader refuses a block line whose label / chromosome name does not fit the
+   array fields ('U6' / 'U10') with a ValueError; false = the tree without that check, where
+   np.array(..., dtype=HapBlock) silently truncates them *)
+Variable strict : bool.
 Variable parse_int : str -> res Z.   (* numpy str -> uint32: ValueError / OverflowError *)
 Variable parse_flt : str -> res Z.   (* numpy str -> float64 (bit pattern): ValueError *)
 Variable fmt_int : Z -> str.         (* str(np.uint32) *)
@@ -247,6 +339,7 @@ Definition iter_step (samples : option (list str)) (st : ist) (line : list str) 
           bind (yield_cur samples st) (fun out =>
             Ok (mkist (Some (drop_last 2 t0, [], [])) (SInt false) out))
     | [t1; t2; t3] =>
+        if strict && (Nat.ltb 6 (length t0) || Nat.ltb 10 (length t1)) then Err E_Value else
         match i_strand st, i_cur st with
         | SUnbound, _ => Err E_Unbound
         | _, None => Err E_Key                           (* blocks is still {} *)
@@ -279,4 +372,39 @@ Definition bp_write (d : ctable) : list (list str) :=
   flat_map (fun sb : str * (list cblk * list cblk) =>
               [fst sb ++ sfx_1] :: map fmt_blk (fst (snd sb))
               ++ [fst sb ++ sfx_2] :: map fmt_blk (snd (snd sb))) d.
+
+(* ---- a file, read and then queried: the two levels composed ------------------ *)
+
+(* strings become the integers the lookup level compares, through any [key] (the checker
+   uses the position in the list of all strings of the case: injective on them) *)
+Variable key : str -> Z.
+
+Definition seg_of (b : cblk) : seg := mkseg (key (c_pop b)) (key (c_chrom b)) (c_bp b) (c_cm b).
+
+Definition table_of (d : ctable) : table :=
+  map (fun sb : str * (list cblk * list cblk) =>
+         (key (fst sb), (map seg_of (fst (snd sb)), map seg_of (snd (snd sb))))) d.
+
+Definition var_of (q : str * Z) : variant := mkvar (key (fst q)) (snd q).
+
+(* Breakpoints.load(file).population_array(variants, samples): labels and chromosome names
+   reach the lookup as the reader stored them (truncated to 6 / 10 characters when not strict) *)
+Definition file_lookup (lines : list (list str)) (qs : list (str * Z)) (req : option (list str))
+  : res (list (list (Z * Z))) :=
+  bind (bp_read None lines) (fun d =>
+    population_array_np (table_of d) (map var_of qs) (option_map (map key) req)).
 End Text.
+
+(* position of a string in a list of strings (its length if absent) *)
+Fixpoint index_of (u : list str) (s : str) : Z :=
+  match u with
+  | [] => 0
+  | x :: r => if str_eqb s x then 0 else 1 + index_of r s
+  end.
+
+(* the property's lookup on strings: label of the first block on chromosome c with end >= p *)
+Fixpoint clabel_at (l : list cblk) (c : str) (p : Z) : option str :=
+  match l with
+  | [] => None
+  | b :: r => if str_eqb (c_chrom b) c && (p <=? c_bp b) then Some (c_pop b) else clabel_at r c p
+  end.
